@@ -10,8 +10,9 @@ Clauses of the property:
   (b) Serial/OpenMP keep the loop                                          C17_kept_loop
   (c) operands are used as complete expressions whatever operators they contain
                                                                             C17_count_expr_value, C17_value_expr_value,
-                                                                            C17_count_expr_grouped (+ the witness for the
-                                                                            tree built before fix F23)
+                                                                            C17_count_expr_faithful, C17_value_expr_faithful
+                                                                            (+ C17_count_expr_old_misread: the tree built
+                                                                            before fix F23)
   recorded findings that restrict (a): F72 (`long` iterators on 32-bit-unsigned thread indices),
   F70 (comparison and update direction disagree): `_full`, `_full_fails`, `_partial`.
 -/
@@ -42,8 +43,9 @@ example : launchIters ⟨0, -5, .lt, true, .addEq 3⟩ = [] ∧ count ⟨0, -5, 
 /-- (a) "each once": the sequential loop never takes a value twice, hence neither does the launch. -/
 theorem C17_each_once (h : Header) (hv : h.Valid) (hs : 0 < h.step) : (seqIters h).Nodup := by
   rw [seqIters_closed h hv hs]
-  refine (List.nodup_range).map_on ?_
-  intro a _ b _ hab
+  refine List.Pairwise.map _ ?_ List.nodup_range
+  intro a b hne hab
+  apply hne
   simp only [valueOf_eq] at hab
   have key : h.step * (Int.ofNat a) = h.step * (Int.ofNat b) := by
     split at hab <;> omega
@@ -122,24 +124,35 @@ theorem C17_value_expr_value (l : LoopSpec) (env : String → Int) (magic : Stri
     eval env (valueExpr l magic) = valueOf (l.header env) (env magic) :=
   valueExpr_value l env magic
 
-/-- The printer adds no parentheses, so the *text* keeps the tree's grouping only if no operand of an
-    operator binds more loosely than its position allows (`Grouped`, OccaProofs/Lemmas/ExprGroup.lean —
-    the C precedence table).  With operands that are themselves grouped — as everything that came out
-    of the OKL parser is — the count tree is grouped, for operand expressions of *every* operator class. -/
-theorem C17_count_expr_grouped (l : LoopSpec) (hi : Grouped l.init) (hb : Grouped l.bound)
-    (hst : ∀ s, l.step = some s → Grouped s) : Grouped (countExpr l) :=
-  countExpr_grouped l hi hb hst
+/-- The printer adds no parentheses, so the emitted *text* is read back with the intended grouping only if
+    no operand binds more loosely than its position allows (`Grouped`, OccaProofs/Lemmas/ExprGroup.lean,
+    stated over the precedence table regenerated from operator.cpp = the C++ table, `occa_prec_is_cxx`).
+    For operand expressions of *every* operator class (they only have to be grouped themselves, as
+    everything that came out of the OKL parser is) the text of the launch dimension is the text of a
+    grouped tree whose value is the model's `count`. -/
+theorem C17_count_expr_faithful (l : LoopSpec) (hi : Grouped l.init) (hb : Grouped l.bound)
+    (hst : ∀ s, l.step = some s → Grouped s) :
+    ∃ r : Expr, Grouped r ∧ print r = print (countExpr l) ∧ ∀ env, eval env r = count (l.header env) :=
+  ⟨countRead l, countRead_grouped l hi hb hst, countRead_print l, countRead_value l⟩
 
-theorem C17_value_expr_grouped (l : LoopSpec) (magic : String) (hi : Grouped l.init)
+example : Grouped (.bin "|" (.var "a") (.tern (.var "c") (.lit 1) (.lit 2))) = False := by decide
+example : Grouped (.tern (.bin "&" (.var "a") (.var "b")) (.lit 1) (.bin "||" (.var "c") (.var "a"))) := by decide
+
+/-- The iterator reconstruction `(init) ± ((s) * (index))` is grouped as built. -/
+theorem C17_value_expr_faithful (l : LoopSpec) (magic : String) (hi : Grouped l.init)
     (hst : ∀ s, l.step = some s → Grouped s) : Grouped (valueExpr l magic) :=
   valueExpr_grouped l magic hi hst
 
-/-- The tree built before fix F23 (`bound` pasted without parentheses) is not grouped for
-    `for (o = N; o > a + b; --o)`: printed `N - a + b`, which C reads as `(N - a) + b`. -/
-theorem C17_count_expr_old_ungrouped :
-    ¬ Grouped (countExprOld { var := "o", attr := .outer, index := none, ityp := "int", init := .var "N", cmp := .gt,
-                             boundOnRight := true, bound := .bin "+" (.var "a") (.var "b"), positive := false,
-                             post := false, step := none }) := by
+/-- Before fix F23 (`bound` pasted without parentheses) the text for `for (o = N; o > a + b; --o)` was
+    `N - a + b`: that is the text of the grouped tree `(N - a) + b`, whose value differs from the count
+    (N = 9, a = 2, b = 3: 10 threads for 4 iterations). -/
+theorem C17_count_expr_old_misread :
+    let l : LoopSpec := { var := "o", attr := .outer, index := none, ityp := "int", init := .var "N", cmp := .gt,
+                          boundOnRight := true, bound := .bin "+" (.var "a") (.var "b"), positive := false,
+                          post := false, step := none }
+    let r : Expr := .bin "+" (.bin "-" (.var "N") (.var "a")) (.var "b")
+    let env : String → Int := fun n => if n = "N" then 9 else if n = "a" then 2 else 3
+    Grouped r ∧ print r = print (countExprOld l) ∧ eval env r = 10 ∧ count (l.header env) = 4 := by
   decide
 
 /-! ### recorded findings -/
